@@ -255,6 +255,11 @@ pub struct Checked {
     pub lenient: (u64, u64),
 }
 
+thread_local! {
+    /// set while generated programs are checked (and while such a finding is replayed)
+    pub static STRICT_LIVENESS: std::cell::Cell<bool> = const { std::cell::Cell::new(false) };
+}
+
 /// One schedule of one program: run compiled, then drive the reference along its history.
 pub fn check_schedule(
     gp: &Arc<goi::ProgData>,
@@ -323,6 +328,20 @@ pub fn check_schedule(
                     at: out.events.len(),
                 });
             }
+        }
+        // bounded liveness, for generated programs (their loops are tiny): the compiled program
+        // has used up its step budget with a single goroutine left — nobody can change what it
+        // is waiting for — while the source semantics, after the very same events, come to an end
+        (Stop::Halted(why), Stop::MainReturned | Stop::Failed(_)) if STRICT_LIVENESS.with(|c| c.get()) && why == "step budget exhausted" && out.live_at_stop == 1 => {
+            checked.verdict = Verdict::Violates(Mismatch {
+                class: "compiled-spins-forever".into(),
+                detail: format!(
+                    "after {} common events the compiled program keeps running without any further effect (step budget exhausted, one goroutine left), the source semantics end with {:?}",
+                    out.events.len(),
+                    rout.stop
+                ),
+                at: out.events.len(),
+            })
         }
         (Stop::Halted(_), _) => checked.verdict = Verdict::PrefixRefines,
         (a, b) => {
@@ -485,6 +504,7 @@ fn shrink_source(sb: &Sandbox, text: &str, strategy: Strategy, seed: u64, class:
 }
 
 fn check_program(sb: &Sandbox, opts: &Opts, idx: usize, name: &str, text_or_files: &Files, nsched: usize) -> ProgResult {
+    STRICT_LIVENESS.with(|c| c.set(name.starts_with("conc/")));
     let mut r = ProgResult {
         violation: None,
         schedules: 0,
@@ -743,6 +763,7 @@ pub fn replay(file: &Value) -> bool {
     };
     let strategy: Strategy = serde_json::from_value(r["strategy"].clone()).unwrap_or(Strategy::Random);
     let schedule: Vec<usize> = serde_json::from_value(r["schedule"].clone()).unwrap_or_default();
+    STRICT_LIVENESS.with(|c| c.set(r["class"] == "compiled-spins-forever"));
     let ch = check_schedule(&c.gp, &c.rp, strategy, 0, schedule, gort::DEFAULT_STEPS);
     match ch.verdict {
         Verdict::Violates(m) => {
